@@ -341,12 +341,19 @@ impl TypeChecker {
         };
 
         // Small edge case: the primitives are already in the typechecker, so we
-        // skip them, but we should override the documentation.
+        // skip them, but we should override the documentation. That only
+        // holds for the Rust types that are those primitives; another Rust
+        // type of the same name is declared (and can clash) like any other.
         if let Some(other) =
             self.type_info.scope_graph.resolve_name(scope, &ident, true)
-            && let DeclarationKind::Type(TypeOrStub::Type(
-                TypeDefinition::Primitive(_) | TypeDefinition::List(_),
-            )) = other.kind
+            && let DeclarationKind::Type(TypeOrStub::Type(def)) = &other.kind
+            && match def {
+                TypeDefinition::Primitive(p) => p.rust_type_id() == type_id,
+                TypeDefinition::List(_) => {
+                    type_id == TypeId::of::<crate::value::ErasedList>()
+                }
+                _ => false,
+            }
         {
             let dec =
                 self.type_info.scope_graph.get_declaration_mut(other.name);
